@@ -178,8 +178,9 @@ impl Value {
             Self::UnaryOp(op, v) => {
                 let value = v.do_evaluate(scope, true)?;
                 match (op, value) {
-                    (Operator::Not, css::Value::Numeric(v, _)) => {
-                        (v.value == 0.into()).into()
+                    // Every number is truthy, also zero.
+                    (Operator::Not, css::Value::Numeric(..)) => {
+                        css::Value::False
                     }
                     (Operator::Not, css::Value::True) => css::Value::False,
                     (Operator::Not, css::Value::False) => css::Value::True,
